@@ -365,6 +365,13 @@ func (r *Run) taskExit(t *Task) {
 //go:norace
 func (r *Run) isAborted() bool { return r.aborted }
 
+// Unwinding reports whether the installed run is being torn down: its tasks
+// are being unwound with Goexit from wherever they were parked.
+func Unwinding() bool {
+	r := cur.Load()
+	return r != nil && r.aborted && !r.finished
+}
+
 func trimStack(s string) string {
 	lines := strings.Split(s, "\n")
 	if len(lines) > 40 {
